@@ -19,9 +19,18 @@ From AGH Require Model.Rewrites.
 Import ListNotations.
 
 Record gstate := mkG {
-  g_on : bool;        (* conf.FilteringEnabled, as published by SetEnabled *)
+  g_on : bool;        (* the atomic flag Settings() reads: what SetEnabled published last *)
+  g_conf : bool;      (* conf.FilteringEnabled: what config / status report *)
   g_q : pstate
 }.
+
+(** Whether handleFilteringConfig goes on to EnableFilters(true), given the
+    requested flag: always, as written; only when enabling in the variant that
+    was seeded (C02-P).  enableFiltersLocked is the only place that publishes
+    conf.FilteringEnabled to the flag the requests read. *)
+Definition config_trigger := bool -> bool.
+Definition config_always : config_trigger := fun _ => true.
+Definition config_only_when_enabling : config_trigger := fun en => en.
 
 Definition gate := bool -> bool.
 Definition gate_as_written : gate := fun _ => true.
@@ -33,25 +42,32 @@ Inductive gop :=
 
 Section Run.
   Variable gt : gate.
+  Variable ct : config_trigger.
 
   (** A handler call: the change, then EnableFilters(true) if the handler
       asks for it and enableFiltersLocked gets as far as setFilters. *)
   Definition handle_g (on : bool) (s : pstate) (ch : qchange) : pstate :=
     prun s (OChange ch :: (if restarts (q_conf s) ch && gt on then [OTrigger] else [])).
 
+  (** enableFiltersLocked ends with SetEnabled(conf.FilteringEnabled). *)
+  Definition publish (g : gstate) (ran : bool) : bool := if ran then g_conf g else g_on g.
+
   Definition gstep (g : gstate) (o : gop) : gstate :=
     match o with
-    | GConfig en => mkG en (handle_g en (g_q g) QTouch)
-    | GOp (HHandle ch) => mkG (g_on g) (handle_g (g_on g) (g_q g) ch)
-    | GOp HSync => mkG (g_on g) (if gt (g_on g) then hstep (g_q g) HSync else g_q g)
-    | GOp o' => mkG (g_on g) (hstep (g_q g) o')
+    | GConfig en =>
+        if ct en then mkG (if gt en then en else g_on g) en (handle_g en (g_q g) QTouch)
+        else mkG (g_on g) en (g_q g)
+    | GOp (HHandle ch) =>
+        mkG (publish g (restarts (q_conf (g_q g)) ch && gt (g_conf g))) (g_conf g) (handle_g (g_conf g) (g_q g) ch)
+    | GOp HSync => mkG (publish g (gt (g_conf g))) (g_conf g) (if gt (g_conf g) then hstep (g_q g) HSync else g_q g)
+    | GOp o' => mkG (g_on g) (g_conf g) (hstep (g_q g) o')
     end.
 
   Definition grun (g : gstate) (hs : list gop) : gstate := fold_left gstep hs g.
 
   (** Start-up: EnableFilters(false) from the configuration. *)
   Definition ginit (on : bool) (st : lstate) : gstate :=
-    mkG on (if gt on then pinit st else mkQ st [] None ([], []) false).
+    mkG on on (if gt on then pinit st else mkQ st [] None ([], []) false).
 End Run.
 
 (** The configuration a request sees: the global filtering flag is the
